@@ -115,6 +115,10 @@ def draw_config(rng, wl, tier):
     }
     if cfg["prelude"]:
         cfg["settle"] = False
+    if wl["data"]["n"] >= 3 and rng.random() < 0.1:
+        # history on the data set before the analysis: mask, read one view, set_mask({}) - the analysis must complete
+        # or refuse exactly as on the freshly constructed data set, never abort on inconsistent views
+        cfg["data_history"] = rng.randrange(1, 10**6)
     if rng.random() < 0.15:
         ov = rng.randint(1, 16)
         cfg["override"] = ov
@@ -188,7 +192,17 @@ def evaluate(wl, cfg, dec, ctx):
     if cfg.get("prelude"):
         pre = run_entry(PRELUDES[cfg["prelude"]], {"num_procs": 1, "callbacks": 1, "settle": True})
         pre_bad = list(pre.bad_progress or [])
+    if cfg.get("data_history"):
+        wl = dict(wl)
+        wl["data"] = dict(wl["data"])
+        wl["data"]["mask"] = []
+        wl["data"]["history_partial"] = cfg["data_history"]
+        cfg = dict(cfg)
+        cfg["analyse_mismatched_data"] = True
     out = run_entry(wl, cfg, dec, ctx.cache)
+    if cfg.get("data_history") and out.status != "skipped":
+        out.probes = dict(out.probes or {})
+        out.probes["data_history_mask_read_clear"] = 1
     if cfg.get("prelude") and out.status != "skipped":
         out.probes = dict(out.probes or {})
         out.probes["prelude_" + cfg["prelude"]] = 1
